@@ -681,6 +681,8 @@ class GCXS(SparseArray, NDArrayOperatorsMixin):
             raise ValueError(f"cannot reshape array of size {self.size} into shape {shape}")
         if len(shape) == 0:
             return self.tocoo().reshape(shape).asformat("gcxs")
+        if self.ndim == 0:
+            return self.tocoo().reshape(shape).asformat("gcxs", compressed_axes=compressed_axes)
 
         if compressed_axes is None:
             if len(shape) == self.ndim:
